@@ -33,13 +33,13 @@ def ow_valid(img):
     if ok:
         parsed = []
         b = el[2:-1]
-        try:
-            while b:
-                eid, ln = b[0], b[1]
-                parsed.append((eid, bytes(b[2:2 + ln])))
-                b = b[2 + ln:]
-        except IndexError:
-            parsed = None
+        while b:
+            if len(b) < 2 or 2 + b[1] > len(b):
+                parsed = None          # ragged TLV area (CRC matched by coincidence)
+                break
+            eid, ln = b[0], b[1]
+            parsed.append((eid, bytes(b[2:2 + ln])))
+            b = b[2 + ln:]
     return header_ok, ok, {'vid': vid, 'pid': pid, 'pins': pins, 'elements': parsed}
 
 
